@@ -1,7 +1,7 @@
 /-
   Frame lemmas: which model functions leave the client state (`st`) alone.
 -/
-import Bisquitt.Model.Gateway
+import Bisquitt.Lemmas.GwRegId
 
 namespace Bisquitt.Gw
 open Bisquitt Gw
@@ -41,6 +41,14 @@ open Bisquitt Gw
 theorem newTopicId_st' {g g' : Gw} {r : Option UInt16} (h : g.newTopicId = (r, g')) : g'.st = g.st := by
   have : g' = g.newTopicId.2 := by rw [h]
   rw [this]; exact newTopicId_st g
+
+theorem registrationTopicId_st' {g g' : Gw} {topic : Bytes} {r : Option UInt16} (h : g.registrationTopicId topic = (r, g')) :
+    g'.st = g.st := by
+  have : g' = (g.registrationTopicId topic).2 := by rw [h]
+  rw [this]
+  rcases registrationTopicId_proj g topic with h | h | ⟨id, h⟩ <;> rw [h]
+  · exact newTopicId_st g
+  · exact newTopicId_st g
 
 theorem foldl_snSend_st (its : List BufItem) : ∀ g : Gw,
     (its.foldl (fun acc it => acc.snSend it.pkt it.tx) g).st = g.st := by
@@ -144,7 +152,7 @@ theorem foldl_snSend_st (its : List BufItem) : ∀ g : Gw,
         · split
           · simp
           · split
-            · rename_i h; simp [newTopicId_st' h]
-            · rename_i h; simp [newTopicId_st' h]
+            · rename_i h; simp [registrationTopicId_st' h]
+            · rename_i h; simp [registrationTopicId_st' h]
 
 end Bisquitt.Gw
